@@ -167,10 +167,40 @@ def fermat_soundness(rec, seed, K, lo_bits=63):
     res = rsa_util.FermatFactor(n, K)
     bad = res is not None and res[0] * res[1] != n
     rec.replayed()
+    if not bad:
+      # the path may depend on an over-approximated stub: stage-2 search over
+      # the degenerate moduli families of the property's quantifier
+      for nm, n2 in degenerate_moduli():
+        res = rsa_util.FermatFactor(n2, K)
+        rec.replayed()
+        if res is not None and res[0] * res[1] != n2:
+          n, bad = n2, True
+          break
     rec.violation('rsa_util.FermatFactor', 'return',
                   'returned pair whose product is not n', dict(n=n, K=K),
                   dict(module='harness.props.c01', function='replay_fermat',
                        args=dict(n=str(n), K=K)), bad)
+    if bad:
+      break
+
+
+def degenerate_moduli():
+  """Moduli >= 2^63 of every degenerate shape named in the property."""
+  import gmpy2  # pylint: disable=g-import-not-at-top
+  np_ = lambda x: int(gmpy2.next_prime(x))
+  out = []
+  for b in (63, 64, 65, 100, 128):
+    p = np_(2**(b // 2) + 12345)
+    q = np_(2**(b - b // 2) + 54321)
+    out += [('semiprime%d' % b, p * q), ('prime%d' % b, np_(2**b)),
+            ('square%d' % b, np_(2**((b + 1) // 2))**2),
+            ('even%d' % b, 2 * np_(2**b)), ('pow2_%d' % b, 2**(b + 1)),
+            ('cube%d' % b, np_(2**(b // 3 + 1))**3),
+            ('fifth%d' % b, np_(2**(b // 5 + 1))**5),
+            ('close%d' % b, p * np_(p + 2)),
+            ('3pow', 3**((b * 5) // 8 + 2)),
+            ('mixed%d' % b, 9 * np_(2**b)), ('sq_times%d' % b, p * p * q)]
+  return out
 
 
 def replay_fermat(n, K):
@@ -528,4 +558,6 @@ def jobs(tier, seed):
     out.append(Job('highlow_L%d' % L, highlow_soundness,
                    dict(L=L, middle_bits=3, width=(5 * L) // 2 + 8),
                    timeout=1800 if thorough else 400, cost=2**(L - 5)))
+  from harness import checklevel  # pylint: disable=g-import-not-at-top
+  out += checklevel.relational_jobs('C01', ('c01',), tier)
   return out
